@@ -424,6 +424,61 @@ def check_trailer(ctx):
     ctx.count('version_dependent_readers', n, 15)
 
 
+
+def fold_policy_for_version(ctx, m):
+    """The fields _set_protocol_version reads are folded from the statements of __init__ that assign them (versions as (major, minor) models,
+    AttributePolicy(v) as an opaque pair); then _set_protocol_version is folded for a fresh copy of every supported version and for an
+    unsupported one: afterwards the engine holds exactly that version and the attribute policy *of that version* - whether it is built on the
+    spot, memoised or taken from a table filled at start-up.  (ok, text) or None when this cannot be folded."""
+    from ..fold import Folder, Version, Unfoldable, Raised, Opaque
+    init = m.method('__init__')
+    sp = m.method('_set_protocol_version')
+    models = {'contents.ProtocolVersion': lambda *a, **k: Version(*(list(a) + [k[x] for x in ('major', 'minor') if x in k])),
+              'policy.AttributePolicy': lambda v: ('AttributePolicy', v), 'AttributePolicy': lambda v: ('AttributePolicy', v)}
+    selfv = {'__attrs__': ('_logger',), '_logger': Opaque('logger')}
+    try:
+        for st_ in init.body:
+            if isinstance(st_, ast.Assign) and len(st_.targets) == 1 and is_self_attr(st_.targets[0]) and (
+                    'rotocol_version' in st_.targets[0].attr or 'ttribute_polic' in st_.targets[0].attr):
+                f = Folder(models=models, methods=m.methods, steps=20000)
+                try:
+                    f.run([st_], {'self': selfv})
+                except (Unfoldable, Raised):
+                    pass
+        versions = selfv.get('_protocol_versions')
+        if not isinstance(versions, list) or not versions or not all(isinstance(v, Version) for v in versions):
+            return None
+        n = 0
+        for v in versions:
+            f = Folder(models=models, methods=m.methods, steps=20000)
+            state = dict(selfv)
+            state['__attrs__'] = tuple(selfv['__attrs__'])
+            for k_ in list(state):
+                if isinstance(state[k_], (dict, list)) and k_ != '__attrs__':
+                    import copy as _copy
+                    state[k_] = _copy.copy(state[k_])
+            fresh = Version(v.major, v.minor)
+            f.call_method(sp, state, [fresh], {})
+            n += 1
+            if state.get('_protocol_version') != v:
+                return (False, 'after accepting %s the engine holds version %r' % (v, state.get('_protocol_version')))
+            if state.get('_attribute_policy') != ('AttributePolicy', v):
+                return (False, 'after accepting %s the attribute policy in force is %r' % (v, state.get('_attribute_policy')))
+        f = Folder(models=models, methods=m.methods, steps=20000)
+        state = dict(selfv)
+        try:
+            f.call_method(sp, state, [Version(9, 9)], {})
+            return (False, 'an unsupported version (9.9) is accepted')
+        except Raised:
+            pass
+    except Unfoldable:
+        ctx.count('policy_for_version_unfoldable', 1)
+        return None
+    except Raised as ex:
+        return (False, '_set_protocol_version raises %s for a supported version' % ex.name)
+    ctx.count('versions_folded_through_set_protocol_version', n)
+    return (True, 'folded for %d supported versions and an unsupported one' % n)
+
 def run(ctx):
     src = ctx.src
     m = EngineModel(src)
@@ -488,17 +543,23 @@ def run(ctx):
     psite = m.site(cc, pr)
     reqp = params(pr)[0]
     arg = cc.args[0] if cc.args else None
-    # header.protocol_version where header = request.request_header
-    okarg = False
-    if isinstance(arg, ast.Attribute) and arg.attr == 'protocol_version':
-        b = arg.value
-        if isinstance(b, ast.Name):
-            vals = prd.values(cn, b.id)
-            okarg = len(vals) == 1 and isinstance(vals[0], ast.Attribute) and U(vals[0]) == '%s.request_header' % reqp
-            hdrvar = b.id
-        elif U(b) == '%s.request_header' % reqp:
-            okarg = True
-            hdrvar = None
+    # request.request_header.protocol_version, possibly through locals bound once (header = request.request_header; version = header.protocol_version)
+    def expanded(e, node, depth=0):
+        if depth > 6 or e is None:
+            return None
+        if isinstance(e, ast.Name):
+            if e.id == reqp:
+                return reqp if all(d[2] is None for d in prd.reaching(node, reqp)) else None
+            vals = prd.reaching(node, e.id)
+            if len(vals) == 1 and isinstance(vals[0][1], ast.AST) and vals[0][2] is not None:
+                return expanded(vals[0][1], vals[0][2], depth + 1)
+            return None
+        if isinstance(e, ast.Attribute):
+            b_ = expanded(e.value, node, depth + 1)
+            return None if b_ is None else '%s.%s' % (b_, e.attr)
+        return None
+    REQV = '%s.request_header.protocol_version' % reqp
+    okarg = expanded(arg, cn) == REQV
     ctx.check(okarg, 'C16.R1', 'KmipEngine.process_request|version-argument', psite, 'version checked is request.request_header.protocol_version',
               'the version checked is not the request header version: %s' % U(arg))
     # first effect: dominates every other self-method call and is not conditional
@@ -713,12 +774,11 @@ def run(ctx):
     brc = call_nodes(pg, 'self._build_response')
     ctx.need(len(brc) == 1, 'unrecognised construct: _build_response call in process_request')
     a0 = brc[0][1].args[0] if brc[0][1].args else None
-    hv = '%s.protocol_version' % (hdrvar or ('%s.request_header' % reqp))
-    ctx.check(a0 is not None and U(a0) == hv and (hdrvar is None or len(prd.reaching(brc[0][0], hdrvar)) == 1), 'C16.R7',
+    ctx.check(a0 is not None and expanded(a0, brc[0][0]) == REQV, 'C16.R7',
               'KmipEngine.process_request|response-version', m.site(brc[0][1], pr), 'response built with the request header version',
               'the response is built with %s instead of the request header version' % U(a0))
-    rets = [pn.stmt for pn, l in pg.exit.pred if isinstance(pn.stmt, ast.Return)]
-    okr = all(isinstance(r.value, ast.Tuple) and len(r.value.elts) == 3 and U(r.value.elts[2]) == hv for r in rets) and bool(rets)
+    retn = [pn for pn, l in pg.exit.pred if isinstance(pn.stmt, ast.Return)]
+    okr = all(isinstance(r.stmt.value, ast.Tuple) and len(r.stmt.value.elts) == 3 and expanded(r.stmt.value.elts[2], r) == REQV for r in retn) and bool(retn)
     ctx.check(okr, 'C16.R7', 'KmipEngine.process_request|returned-version', m.site(pr, pr), 'third result component is the request header version',
               'process_request does not return the request header version as its third component')
     stree = src.tree(SESSION)
@@ -835,19 +895,30 @@ def run(ctx):
         return False
     pol_sites = [n for n in sg.nodes if n.kind == 'stmt' and isinstance(n.stmt, ast.Assign) and is_self_attr(n.stmt.targets[0], '_attribute_policy')]
     pol_ok = bool(pol_sites) and all(is_policy_for_version(n.stmt.value, n) for n in pol_sites)
+    folded_pol = fold_policy_for_version(ctx, m)
+    if folded_pol is not None:
+        pol_ok = folded_pol[0]
+        memo_ok = ()
     if pol_ok and memo_ok:
         # every entry of the memo table is itself AttributePolicy(<version the key was built from>)
         for n in sg.nodes:
             if n.kind == 'stmt' and isinstance(n.stmt, ast.Assign) and isinstance(n.stmt.targets[0], ast.Subscript) and is_self_attr(n.stmt.targets[0].value) \
                     and n.stmt.targets[0].value.attr in memo_ok:
                 pol_ok = pol_ok and is_policy_for_version(n.stmt.value, n)
-    ctx.check(pol_ok, 'C16.R8', 'KmipEngine._set_protocol_version|attribute-policy-version', ssite, 'attribute policy rebuilt with the accepted version',
-              'the attribute policy is not rebuilt from the accepted request version')
+    ctx.check(pol_ok, 'C16.R8', 'KmipEngine._set_protocol_version|attribute-policy-version', ssite, 'attribute policy rebuilt with the accepted version' + (' (%s)' % folded_pol[1] if folded_pol else ''),
+              'the attribute policy is not rebuilt from the accepted request version' + (': %s' % folded_pol[1] if folded_pol else ''))
     # is_attribute_supported / deprecated bodies
     pcl = pol.cls
     for meth, fld, none_ok in (('is_attribute_supported', 'version_added', False), ('is_attribute_deprecated', 'version_deprecated', True)):
         f = get_method(pcl, meth)
         fg = CFG(f)
+        frd = ReachingDefs(fg)
+        from ..dataflow import resolve as _res
+
+        def fld_of(e_, at_):
+            # the rule field an expression denotes: <rule set>.<field>, possibly held in a local first
+            e2, _n = _res(frd, at_, e_)
+            return e2.attr if isinstance(e2, ast.Attribute) else None
         good = True
         n_ret = 0
         for pn, lab in fg.exit.pred:
@@ -858,7 +929,7 @@ def run(ctx):
                 if isinstance(v_, ast.Call) and call_name(v_) == 'bool' and len(v_.args) == 1 and not v_.keywords:
                     v_ = v_.args[0]
                 p_ = cmp_parts(v_)
-                if p_ and is_self_attr(p_[0], '_version') and isinstance(p_[2], ast.Attribute) and p_[2].attr == fld and p_[1] == 'GtE':
+                if p_ and is_self_attr(p_[0], '_version') and fld_of(p_[2], pn) == fld and p_[1] == 'GtE':
                     n_ret += 2
                     continue
             if not (isinstance(s, ast.Return) and isinstance(s.value, ast.Constant)):
@@ -868,7 +939,7 @@ def run(ctx):
             ge = None
             for t, l2 in dominating_edges(fg, pn):
                 p = cmp_parts(t.stmt)
-                if p and is_self_attr(p[0], '_version') and isinstance(p[2], ast.Attribute) and p[2].attr == fld and p[1] == 'GtE':
+                if p and is_self_attr(p[0], '_version') and fld_of(p[2], t) == fld and p[1] == 'GtE':
                     ge = (l2 == 'T')
             if s.value.value is True and ge is not True:
                 good = False
